@@ -98,6 +98,16 @@ CHECKS["C09"] = dict(
     ref="DESIGN.md section 4 C09",
     technique="TLA+ visibility model, TLC enumeration, spec-behaviour replay into Cube")
 
+CHECKS["C08"] = dict(
+    text="Sort.tla defines the SET of acceptable display orders of a sort-by-value transform "
+         "(subtotal group / fixed top / body / fixed bottom, each monotone in the public "
+         "measure, NaN last in payload order, fallback to the anchored order) and TLC computes "
+         "its extension per state; seeded sort configurations over every supported keyword x "
+         "TLC-enumerated bags (ties, NaN keys, zero bases); membership checked on the library's "
+         "row_order()/column_order().",
+    ref="DESIGN.md section 4 C08",
+    technique="TLA+ sort-acceptance predicate, TLC computes acceptable-order sets, replay into Cube")
+
 NOT_YET = {}
 
 
